@@ -25,7 +25,7 @@ REQUIRED_COUNTERS = ["faults_fired", "reuses_observed", "expiries_observed", "us
 SHARDS = {"quick": 16, "thorough": 16}
 TIMEOUT = {"quick": 900, "thorough": 7200}
 
-HARD = {"refused", "timeout", "unreach", "reset", "brokenpipe", "timeout_delivered", "eof", "oserror", "gaierror", "valueerror", "overflow", "eagain"}
+HARD = {"refused", "timeout", "unreach", "reset", "brokenpipe", "timeout_delivered", "eof", "oserror", "gaierror", "valueerror", "overflow", "eagain", "eintr_partial", "timeout_partial"}
 
 
 def hard(k):
